@@ -86,6 +86,9 @@ def tie_T(run):
     nbroken = len(run.broken)
     built = run.build_props(props="Props/C10_gen.v", extra=["Corr/C10_gen.v"])
     if built:
+        # the float-level clamp theorems on the regenerated definitions
+        built = run.build_props(props="Props/C10_gen_float.v")
+    if built:
         run.notes.append("tie: regenerated (%s: regenerated definitions proved equal to the hand model for every input, "
                          "theorems restated on them)" % ", ".join(GEN_FUNCTIONS))
         run.extra_cov["tie"] = "regenerated + correspondence"
